@@ -564,31 +564,84 @@ pub struct TxRun {
     pub coinbase_post: U256,
     pub obs: Obs,
 }
-/// runs the whole real transaction; `Err(())` = rejected by validation
-pub fn run_tx(r: &TxReq) -> Result<TxRun, ()> {
-    let f = &r.f;
-    let mut db = base_db(f, r.auth, false);
+fn tx_db(r: &TxReq) -> InMemoryDB {
+    let mut db = base_db(&r.f, r.auth, false);
     contract(&mut db, target(), prog_code(&r.prog, r.k), 8);
     let mut sub = vec![];
     clear_slots(&mut sub, r.k);
     sub.push(0x00);
     contract(&mut db, subaddr(), sub, 8);
-    let to = match r.to {
+    db
+}
+fn tx_env(env: &mut Env, r: &TxReq) {
+    set_env(env, &r.f, coinbase());
+    env.tx.transact_to = match r.to {
         't' => TxKind::Call(target()),
         'a' => TxKind::Call(auth_existing(0)),
         _ => TxKind::Create,
     };
+    env.tx.data = Bytes::from(r.data.clone());
+    env.tx.access_list = access_list(&r.al);
+    env.tx.authorization_list = auth_list(r.auth, target());
+}
+/// an `Inspector` that keeps the result of the LAST `*_end` callback: the outermost frame ends last
+#[derive(Default)]
+struct LastEnd {
+    last: Option<(InstructionResult, Gas)>,
+    ends: u64,
+}
+impl<DB: revm::Database> revm::Inspector<DB> for LastEnd {
+    fn call_end(
+        &mut self,
+        _c: &mut revm::EvmContext<DB>,
+        _i: &revm::interpreter::CallInputs,
+        o: revm::interpreter::CallOutcome,
+    ) -> revm::interpreter::CallOutcome {
+        self.last = Some((o.result.result, o.result.gas));
+        self.ends += 1;
+        o
+    }
+    fn create_end(
+        &mut self,
+        _c: &mut revm::EvmContext<DB>,
+        _i: &revm::interpreter::CreateInputs,
+        o: revm::interpreter::CreateOutcome,
+    ) -> revm::interpreter::CreateOutcome {
+        self.last = Some((o.result.result, o.result.gas));
+        self.ends += 1;
+        o
+    }
+    fn eofcreate_end(
+        &mut self,
+        _c: &mut revm::EvmContext<DB>,
+        _i: &revm::interpreter::EOFCreateInputs,
+        o: revm::interpreter::CreateOutcome,
+    ) -> revm::interpreter::CreateOutcome {
+        self.last = Some((o.result.result, o.result.gas));
+        self.ends += 1;
+        o
+    }
+}
+/// the first frame's result as an `Inspector` sees it (`call_end` / `create_end` of the outermost frame)
+pub fn observe_with_inspector(r: &TxReq) -> Option<(String, u64, i64)> {
     let mut evm = Evm::builder()
-        .with_db(db)
-        .with_spec_id(f.spec)
-        .modify_env(|env| {
-            set_env(env, f, coinbase());
-            env.tx.transact_to = to;
-            env.tx.data = Bytes::from(r.data.clone());
-            env.tx.access_list = access_list(&r.al);
-            env.tx.authorization_list = auth_list(r.auth, target());
-        })
+        .with_db(tx_db(r))
+        .with_external_context(LastEnd::default())
+        .with_spec_id(r.f.spec)
+        .append_handler_register(revm::inspector_handle_register)
+        .modify_env(|env| tx_env(env, r))
         .build();
+    if !r.rw {
+        evm.handler.post_execution.reward_beneficiary = None;
+    }
+    evm.transact().ok()?;
+    let (ir, g) = evm.context.external.last?;
+    Some((ir_name(ir).to_string(), g.remaining(), g.refunded()))
+}
+/// runs the whole real transaction; `Err(())` = rejected by validation
+pub fn run_tx(r: &TxReq) -> Result<TxRun, ()> {
+    let f = &r.f;
+    let mut evm = Evm::builder().with_db(tx_db(r)).with_spec_id(f.spec).modify_env(|env| tx_env(env, r)).build();
     if !r.rw {
         evm.handler.post_execution.reward_beneficiary = None;
     }
@@ -752,6 +805,15 @@ pub fn exec_line(line: &str) -> String {
 // ---------------------------------------------------------------- generators
 const SPECS: &[u8] = &[0, 1, 2, 3, 4, 5, 6, 7, 8, 9, 10, 11, 12, 13, 14, 15, 16, 17, 18, 19, 255];
 
+/// half uniform over every SpecId, half over the forks where the pipeline changes (London, Merge,
+/// Shanghai, Cancun, Prague, Osaka, Latest)
+fn pick_spec(rng: &mut Rng) -> u8 {
+    if rng.chance(1, 2) {
+        *rng.pick(SPECS)
+    } else {
+        *rng.pick(&[12u8, 15, 16, 17, 18, 18, 18, 19, 255])
+    }
+}
 fn spec_of(b: u8) -> SpecId {
     SpecId::try_from_u8(b).unwrap()
 }
@@ -818,14 +880,14 @@ fn gen_fees(rng: &mut Rng, specb: u8, gl: u64, blob_ok: bool) -> Fees {
         gp = bf + U256::from(rng.below(50));
     }
     let pf = if rng.chance(if london { 1 } else { 0 }, 2) || rng.chance(1, 40) {
-        Some(match rng.below(8) {
+        Some(match rng.below(14) {
             0 => U256::ZERO,
             1 => gp,
             2 => gp.saturating_add(U256::from(1)),
             3 => U256::MAX - bf + U256::from(rng.below(3)),
             4 => gp.saturating_sub(bf),
             5 => gp.saturating_sub(bf).saturating_add(U256::from(1)),
-            _ => U256::from(rng.below(1_000_000_000)),
+            _ => U256::from(rng.below(1_000_000_000)).min(gp),
         })
     } else {
         None
@@ -859,8 +921,8 @@ fn gen_fees(rng: &mut Rng, specb: u8, gl: u64, blob_ok: bool) -> Fees {
         .saturating_mul(gp)
         .saturating_add(val)
         .saturating_add(if cancun { mf.unwrap_or(U256::ZERO).saturating_mul(tbg) } else { U256::ZERO });
-    let bal = match rng.below(10) {
-        0 => need,
+    let bal = match rng.below(20) {
+        0 | 5 => need,
         1 => need.saturating_sub(U256::from(1)),
         2 => need.saturating_add(U256::from(1)),
         3 => U256::MAX,
@@ -872,19 +934,19 @@ fn gen_fees(rng: &mut Rng, specb: u8, gl: u64, blob_ok: bool) -> Fees {
 }
 
 fn gen_pipe(rng: &mut Rng, out: &mut Out) -> String {
-    let specb = *rng.pick(SPECS);
+    let specb = pick_spec(rng);
     let spec = spec_of(specb);
     let s = gen_shape(rng, spec);
     let (init, floor) = initial_floor(spec, &s);
     let hi = init.max(floor);
-    let gl = match rng.below(14) {
+    let gl = match rng.below(26) {
         0 => init,
         1 => init + 1,
         2 => init.saturating_sub(1),
         3 => hi,
         4 => hi + 1,
         5 => hi.saturating_sub(1),
-        6 => floor,
+        6 => if floor == 0 { hi + 7 } else { floor },
         7 => u64::MAX,
         8 => 1u64 << 63,
         9 => 30_000_000,
@@ -970,7 +1032,7 @@ fn gen_pipe(rng: &mut Rng, out: &mut Out) -> String {
 }
 
 fn gen_tx(rng: &mut Rng, out: &mut Out) -> String {
-    let specb = *rng.pick(SPECS);
+    let specb = pick_spec(rng);
     let spec = spec_of(specb);
     let prague = spec.is_enabled_in(SpecId::PRAGUE);
     let berlin = spec.is_enabled_in(SpecId::BERLIN);
@@ -996,14 +1058,14 @@ fn gen_tx(rng: &mut Rng, out: &mut Out) -> String {
     let al = if berlin && rng.chance(1, 3) { rng.pick(&[vec![0u64], vec![2], vec![8, 3], vec![1, 0, 4]]).clone() } else { vec![] };
     let g = calculate_initial_tx_gas(spec, &data, to == 'c', &access_list(&al), auth.map(|(k, m)| k + m).unwrap_or(0));
     let hi = g.initial_gas.max(g.floor_gas);
-    let gl = match rng.below(10) {
+    let gl = match rng.below(16) {
         0 => hi,
         1 => hi + 1,
         2 => hi + 2300,
         3 => hi + rng.below(6000),
-        4 => hi + rng.below(30000),
-        5 => 30_000_000,
-        _ => hi + 20000 + rng.below(400_000),
+        4 | 5 => hi + rng.below(60000),
+        6 => 30_000_000,
+        _ => hi + 150_000 + rng.below(400_000),
     };
     let mut f = gen_fees(rng, specb, gl, to != 'c' && auth.is_none());
     // whole transactions: keep prices where the arithmetic is exact; extreme values are stream (a)'s job
@@ -1039,7 +1101,33 @@ fn gen_tx(rng: &mut Rng, out: &mut Out) -> String {
     if !r.al.is_empty() {
         out.count("tx_access_list");
     }
-    let obs = std::panic::catch_unwind(|| run_tx(&r).ok().map(|x| (x.cls, x.obs))).ok().flatten();
+    let mut obs = std::panic::catch_unwind(|| {
+        run_tx(&r).ok().map(|x| (x.cls, x.obs, prague && x.used == g.floor_gas && g.floor_gas > g.initial_gas))
+    })
+    .ok()
+    .flatten()
+    .map(|(c, o, fb)| {
+        if fb {
+            out.count("tx_floor_binds");
+        }
+        (c, o)
+    });
+    if rng.chance(1, 4) {
+        // the observation written into the request is the Inspector's (outermost call_end / create_end);
+        // the executor re-checks it against what `last_frame_return` receives
+        if let Some((_, o)) = obs.as_mut() {
+            let seen = std::panic::catch_unwind(|| observe_with_inspector(&r)).ok().flatten();
+            out.count("tx_observed_by_inspector");
+            match seen {
+                Some((ir, rem, refd)) => {
+                    o.ir = ir;
+                    o.rem = rem;
+                    o.refd = refd;
+                }
+                None => o.ir = "FatalExternalError".into(),
+            }
+        }
+    }
     match &obs {
         Some((cls, o)) => {
             out.count(&format!("tx_class_{}", cls));
